@@ -1,5 +1,6 @@
 import Op2Proofs.WriterLemmas
 import Op2Proofs.LittleEndian
+import Op2Proofs.SysCopy
 import Op2Model.Gen.Layout
 /-!
 # C14 — writers write exactly what the history implies and refuse what does not fit
@@ -99,6 +100,35 @@ theorem C14_prefixed_roundtrip (width : Nat) (signed : Bool) (esz maxSize allocC
       .ok (payload, { data := pre ++ out ++ rest, pos := pre.length + out.length }) :=
   prefixed_roundtrip width signed esz maxSize allocCap count payload out pre rest hw hlen hmax hcap hwd
 
+/-- the same through the `MemoryReader` model with its u64 guards (what `DynamicMemoryWriter::GetReader()` hands back): written
+    by `Write<SizeType>`, read by `Read<SizeType>` -/
+theorem C14_prefixed_roundtrip_memory (width : Nat) (signed : Bool) (esz maxSize allocCap count : Nat) (payload out pre rest : Bytes)
+    (hw : writePrefixed width signed payload count = .ok out) (hlen : payload.length = count * esz)
+    (hmax : count ≤ maxSize) (hcap : count * esz < allocCap) (hwd : 0 < width) (hw64 : width < W64) (hc64 : allocCap ≤ W64)
+    (hfit : (pre ++ out ++ rest).length < W64) :
+    readPrefixed MemR.rd width signed esz maxSize allocCap ({ data := pre ++ out ++ rest, pos := pre.length } : MemR) =
+      .ok (payload, { data := pre ++ out ++ rest, pos := pre.length + out.length }) := by
+  have hinv : RSpec.Inv ({ data := pre ++ out ++ rest, pos := pre.length } : RSpec) :=
+    ⟨by simp only [List.length_append]; omega, hfit⟩
+  have hs := readPrefixed_sim Eq (fun _ => rfl) MemR.rd id RSpec.Inv
+    (fun t k ht hk => by
+      rw [memrd_eq t ht k hk]
+      simp only [id]
+      cases hr : RSpec.rd t k with
+      | error e => exact rfl
+      | ok p => obtain ⟨b, t'⟩ := p; exact ⟨rfl, rfl, rd_inv t t' b k ht hr⟩)
+    width signed esz maxSize allocCap hw64 hc64 _ hinv
+  rw [show id ({ data := pre ++ out ++ rest, pos := pre.length } : RSpec) = { data := pre ++ out ++ rest, pos := pre.length } from rfl,
+    prefixed_roundtrip width signed esz maxSize allocCap count payload out pre rest hw hlen hmax hcap hwd] at hs
+  cases hr : readPrefixed MemR.rd width signed esz maxSize allocCap ({ data := pre ++ out ++ rest, pos := pre.length } : MemR) with
+  | error e => rw [hr] at hs; exact hs.elim
+  | ok p =>
+    obtain ⟨b, s'⟩ := p
+    rw [hr] at hs
+    obtain ⟨hb, ha, _⟩ := hs
+    simp only [id] at ha
+    rw [hb, ha]
+
 example : writePrefixed 2 true [7, 0, 8, 0, 9, 0] 3 = .ok [3, 0, 7, 0, 8, 0, 9, 0] ∧
     readPrefixed RSpec.rd 2 true 2 1000 1000 { data := [1] ++ [3, 0, 7, 0, 8, 0, 9, 0] ++ [5], pos := 1 } =
       .ok ([7, 0, 8, 0, 9, 0], { data := [1] ++ [3, 0, 7, 0, 8, 0, 9, 0] ++ [5], pos := 9 }) := ⟨rfl, rfl⟩
@@ -109,6 +139,17 @@ theorem C14_copy (B : Nat) (hB : 0 < B) (r : RSpec) (w : Bytes) (hp : r.pos ≤ 
     (hf : r.data.length - r.pos < fuel) :
     copyLoop B fuel r w = ({ r with pos := r.data.length }, w ++ r.data.drop r.pos) :=
   copy_spec B hB fuel r w hp hf
+
+/-- … for every reader backend: the copy loop run on a live object of any backend (memory reader, file reader, file slice, slice of
+    a file slice — `copyLoopRd`, which the `copy` commands of the correspondence run execute) hands the writer exactly the bytes
+    between the reader's cursor and the end of what it exposes, for every chunk size below 2^64, and leaves the reader at its end -/
+theorem C14_copy_every_backend (B : Nat) (hB : 0 < B) (hB64 : B < W64) (r : Rd) (hr : r.Good) (w : Bytes) (fuel : Nat)
+    (hf : r.abs.data.length - r.abs.pos < fuel) :
+    (copyLoopRd B fuel r w).2 = w ++ r.abs.data.drop r.abs.pos ∧
+    (copyLoopRd B fuel r w).1.abs = { r.abs with pos := r.abs.data.length } :=
+  ⟨(copy_every_backend B hB hB64 r hr w fuel hf).1, (copy_every_backend B hB hB64 r hr w fuel hf).2.1⟩
+
+example : (copyLoopRd 2 9 (Rd.fsl { w := { data := [1, 2, 3, 4, 5, 6, 7], pos := 3 }, start := 2, len := 4 }) [9]).2 = [9, 4, 5, 6] := by decide
 
 /-- the library's chunk size is positive (regenerated from the header on every run) -/
 theorem gen_copy_chunk_positive : 0 < Op2.Gen.Layout.DefaultCopyChunkSize := by decide
